@@ -103,9 +103,61 @@ def _predict(out, name, grid, i, pdf, order, part=0):
     return float(np.sum(v * f))
 
 
+def _states_cross(seed):
+    """two adequate grids of DIFFERENT families (fine log vs fine linear vs fine lambert) must agree: an error common to every grid of one family is invisible inside that family."""
+    out = []
+    for k, p, sc, h, pto in [("F2", "EM", "ZM-VFNS", "total", 1), ("F3", "CC", "ZM-VFNS", "total", 1), ("FL", "NC", "ZM-VFNS", "total", 1), ("g1", "NC", "ZM-VFNS", "total", 1), ("F2", "EM", "FFNS3", "charm", 1), ("F3", "CC", "FFNS3", "charm", 1),
+                             ("F2", "EM", "FFN03", "charm", 1), ("F3", "CC", "FFN03", "charm", 1), ("F2", "NC", "FONLL-FFN03", "total", 1), ("FL", "CC", "FONLL-FFNS4", "total", 1), ("F2", "NC", "ZM-VFNS", "total", 2)]:
+        out.append({"cross": 1, "family": "log", "degree": 3, "kind": k, "process": p, "scheme": sc, "pto": pto, "heavyness": h})
+    return out
+
+
+def _cross(st):
+    name = cards.obsname(st["kind"], st["heavyness"])
+    xs = [0.1, 0.3, 0.6, 0.8]
+    outs = {}
+    for fam in ("log", "linear", "lambert"):
+        g, lg = _grid(FAMS[fam][2])
+        c = {"process": st["process"], "scheme": st["scheme"], "pto": st["pto"], "theory": {"RenScaleVar": False, "FactScaleVar": False}, "obscard": {"interpolation_xgrid": g, "interpolation_polynomial_degree": st["degree"], "interpolation_is_log": lg}}
+        out, s = rel.try_run(c, {name: [cards.kin(x, 30.0) for x in xs]})
+        if s != "ok":
+            return {"violations": [], "nontrivial": False, "outcome": s, "transitions": 1}
+        outs[fam] = (out, g)
+    viol, info, nontrivial = [], {}, False
+    for abc in PDFS:
+        pdf = _P(abc)
+        for o in range(st["pto"] + 1):
+            P = {fam: np.array([_predict(out, name, g, i, pdf, o) for i in range(len(xs))]) for fam, (out, g) in outs.items()}
+            sabs = np.array([_predict(outs["log"][0], name, outs["log"][1], i, pdf, o, part=2) for i in range(len(xs))])
+            if sabs.max() == 0:
+                continue
+            nontrivial = True
+            den = sabs + 0.01 * sabs.max()
+            for fam in ("linear", "lambert"):
+                e = float(np.max(np.abs(P[fam] - P["log"]) / den))
+                info[f"Ecross_{fam}_o{o}"] = max(info.get(f"Ecross_{fam}_o{o}", 0.0), e)
+                if e > LIM["degree"]:
+                    i = int(np.argmax(np.abs(P[fam] - P["log"]) / den))
+                    viol.append(_v(st, "cross-family", f"{name} {st['process']} {st['scheme']} order {o} pdf {abc}: the fine {fam} grid gives {P[fam][i]:.8g} at x={xs[i]}, the fine log grid {P['log'][i]:.8g} (rel {e:.2e} > {LIM['degree']})"))
+    seen, uv = set(), []
+    for v_ in viol:
+        if v_["msg"][:60] not in seen:
+            seen.add(v_["msg"][:60])
+            uv.append(v_)
+    return {"violations": uv[:3], "nontrivial": nontrivial, "outcome": digest([round(v, 10) for v in info.values()]), "transitions": 3, "sub": len(PDFS) * (st["pto"] + 1), "info": info}
+
+
+def _states_combo(seed):
+    """grid family x scheme combinations that select other integration kernels: asymptotic schemes carry the only singular-without-regular coefficient (intrinsic matching), massive CC the shifted convolution point."""
+    out = []
+    for fam, (k, p, sc, h) in itertools.product(["linear", "log"], [("F2", "EM", "FFN03", "charm"), ("F3", "CC", "FFN03", "charm"), ("F2", "NC", "FONLL-FFN03", "total")]):
+        out.append({"family": fam, "degree": 3, "kind": k, "process": p, "scheme": sc, "pto": 1, "heavyness": h})
+    return out
+
+
 def states(tier, seed):
     """quick = the full base lattice; thorough = base lattice + the deep extension."""
-    base = _states_base("thorough", seed)
+    base = _states_base("thorough", seed) + _states_combo(seed) + _states_cross(seed)
     if tier == "quick":
         return base
     seen = {digest(s) for s in base}
@@ -125,6 +177,8 @@ def _states_deep(seed):
 
 def execute(st):
     yrun.reset_memos()
+    if st.get("cross"):
+        return _cross(st)
     fam = FAMS[st["family"]]
     grids = [_grid(s) for s in fam]
     coarse = grids[0][0]
@@ -227,5 +281,6 @@ LEVEL_TEXT = (
     "errors must shrink under refinement (and stay below absolute bounds), neighbouring degrees must agree, and the value at a node must be continuous."
     " Continuity is also demanded at the smallest node (a legal request) on every grid of a family."
 )
+# cross-family agreement (fine log vs fine linear vs fine lambert grid) is part of the lattice: see _states_cross
 LEVEL_NOTE = "This is an accuracy bound with measured margins, not an identity; grids, PDFs and x outside the stated families are not covered. Trusted: eko's grid generators (only to produce the ladders)."
 TECHNIQUE = "bounded-exhaustive enumeration of grid-refinement ladders with a convergence (sup-norm) oracle between runs"
